@@ -2,20 +2,22 @@
 # Regenerates harness/go.mod and go.sum from /repo's go.mod so that module resolution
 # picks exactly the versions /repo builds with (anything else cannot be fetched offline).
 set -e
+# VERIF_REPO (default /repo) lets a background sweep build from a snapshot of the repository instead.
+REPO=${VERIF_REPO:-/repo}
 H=$(cd "$(dirname "${BASH_SOURCE[0]}")/.." && pwd)/harness
 TMP=$(mktemp)
 {
   echo "module verif/harness"
   echo
-  sed -n '2,$p' /repo/go.mod
+  sed -n '2,$p' $REPO/go.mod
   echo
   echo "require github.com/attestantio/dirk v0.0.0"
   echo "require github.com/anishathalye/porcupine v1.3.0"
   echo
-  echo "replace github.com/attestantio/dirk => /repo"
+  echo "replace github.com/attestantio/dirk => $REPO"
 } > "$TMP"
 if ! cmp -s "$TMP" $H/go.mod; then cp "$TMP" $H/go.mod; fi
 rm -f "$TMP"
 # go.sum: /repo's plus what we have recorded for porcupine.
-cat /repo/go.sum $H/go.sum.extra 2>/dev/null | sort -u > $H/go.sum.new
+cat $REPO/go.sum $H/go.sum.extra 2>/dev/null | sort -u > $H/go.sum.new
 if ! cmp -s $H/go.sum.new $H/go.sum; then mv $H/go.sum.new $H/go.sum; else rm $H/go.sum.new; fi
